@@ -5,7 +5,13 @@ Monitor: after PDDLWriter.get_domain()/get_problem() every model item is looked 
 the two texts are re-lexed; for ANML the (item, name) pairs flowing through the module-level `_get_anml_name` are captured
 by a pass-through wrapper and the text is re-lexed.  Oracle: vk.ref.names (grammars / keyword tables transcribed from the
 language definitions).  Every problem is written twice: with the module-level PDDL keyword set as in a fresh process, and
-after "history" writers (temporal / trajectory-constraint problems) have been created in the same process."""
+after "history" writers (temporal / trajectory-constraint problems) have been created in the same process.
+
+Writer exceptions: documented rejections and internal exceptions raised by the *rest* of the writer (unsupported metrics,
+Boolean constants, ...) mean "no names to judge" (counted); an internal exception raised inside the name-choosing functions
+themselves (`_get_mangled_name`, `_get_pddl_name`, `_get_anml_name`, ... — e.g. their own uniqueness / validity assertions)
+is a violation `<writer>:naming-raises:<Type>:<function>`: the property promises a name for every item of every problem.
+ANML `invalid-identifier` mechanisms say how the name escaped: `unmangled|mangled` x shape of the emitted name."""
 import copy
 
 from vk import env as _env  # noqa: F401
@@ -58,7 +64,7 @@ PROFILE = dict(
 
 
 def plan(tier, seed):
-    return simple_plan(PROPERTY, tier, seed, N_CASES["quick"], N_CASES["thorough"], shards_quick=12, shards_thorough=16)
+    return simple_plan(PROPERTY, tier, seed, N_CASES["quick"], N_CASES["thorough"], shards_quick=4, shards_thorough=16)  # (quick tier work ~6 CPU-s; every shard costs ~2.5 CPU-s of imports)
 
 
 def run_shard(spec, res):
